@@ -14,7 +14,9 @@ import (
 	"fmt"
 	"math"
 	"math/big"
+	"net"
 	"os"
+	"sync"
 	"testing"
 	"time"
 	"unsafe"
@@ -227,3 +229,121 @@ func BoundReceiver(f any) unsafe.Pointer {
 	// a func value is pointer-shaped: the interface data word points at {code pointer, captured receiver}
 	return (*[2]unsafe.Pointer)(e.data)[1]
 }
+
+// ---------- upstream model (tunnels) ----------
+//
+// Natively UpstreamListen starts a real loopback listener that records everything the
+// dialled connections receive. Under symgo net.Dial / net.DialTimeout are redirected to ModelDial,
+// whose connections record what is written to them and never finish before they are closed.
+
+type upstreamRec struct {
+	mu    sync.Mutex
+	buf   []byte
+	dials int
+	wg    sync.WaitGroup
+}
+
+var upstream *upstreamRec
+
+func UpstreamListen() string {
+	l, err := net.Listen("tcp", "127.0.0.1:0")
+	if err != nil {
+		panic(err)
+	}
+	u := &upstreamRec{}
+	upstream = u
+	go func() {
+		for {
+			c, err := l.Accept()
+			if err != nil {
+				return
+			}
+			u.mu.Lock()
+			u.dials++
+			u.mu.Unlock()
+			u.wg.Add(1)
+			go func() {
+				defer u.wg.Done()
+				b, _ := io.ReadAll(c)
+				u.mu.Lock()
+				u.buf = append(u.buf, b...)
+				u.mu.Unlock()
+				c.Close()
+			}()
+		}
+	}()
+	return l.Addr().String()
+}
+
+// UpstreamReceived returns the bytes the upstream got, after its connections were closed.
+func UpstreamReceived() []byte {
+	if upstream == nil {
+		return nil
+	}
+	done := make(chan bool)
+	go func() { upstream.wg.Wait(); close(done) }()
+	select {
+	case <-done:
+	case <-time.After(3 * time.Second):
+	}
+	upstream.mu.Lock()
+	defer upstream.mu.Unlock()
+	return append([]byte(nil), upstream.buf...)
+}
+
+func UpstreamDials() int {
+	if upstream == nil {
+		return 0
+	}
+	time.Sleep(50 * time.Millisecond)
+	upstream.mu.Lock()
+	defer upstream.mu.Unlock()
+	return upstream.dials
+}
+
+type ModelConn struct {
+	buf      []byte
+	closed   chan bool
+	isClosed bool
+}
+
+type modelAddr struct{}
+
+func (modelAddr) Network() string { return "tcp" }
+func (modelAddr) String() string  { return "192.0.2.1:1" }
+
+func (c *ModelConn) Read(p []byte) (int, error) { <-c.closed; return 0, io.EOF }
+func (c *ModelConn) Write(p []byte) (int, error) {
+	c.buf = append(c.buf, p...)
+	return len(p), nil
+}
+func (c *ModelConn) Close() error {
+	if !c.isClosed {
+		c.isClosed = true
+		close(c.closed)
+	}
+	return nil
+}
+func (c *ModelConn) LocalAddr() net.Addr                { return modelAddr{} }
+func (c *ModelConn) RemoteAddr() net.Addr               { return modelAddr{} }
+func (c *ModelConn) SetDeadline(t time.Time) error      { return nil }
+func (c *ModelConn) SetReadDeadline(t time.Time) error  { return nil }
+func (c *ModelConn) SetWriteDeadline(t time.Time) error { return nil }
+
+var modelConns []*ModelConn
+
+func ModelDial(network, addr string) (net.Conn, error) {
+	c := &ModelConn{closed: make(chan bool)}
+	modelConns = append(modelConns, c)
+	return c, nil
+}
+
+func ModelReceived() []byte {
+	var b []byte
+	for _, c := range modelConns {
+		b = append(b, c.buf...)
+	}
+	return b
+}
+
+func ModelDials() int { return len(modelConns) }
